@@ -11,6 +11,7 @@ PID = "C34"
 LEAN_MODULES = ["Pkgcore.Props.C34"]
 OBLIGATIONS = [
     "Pkgcore.C34.positions_advance",
+    "Pkgcore.C34.fuel_suffices",
     "Pkgcore.C34.output_is_window_concat",
     "Pkgcore.C34.filtered_windows_are_statements",
     "Pkgcore.C34.sentinel_never_emitted",
@@ -27,8 +28,8 @@ TRUSTED = [
 ]
 ASSUMPTIONS = [
     "the buffer handed to run() ends with the NUL sentinel main_run appends and contains no other NUL (bash cannot store one)",
-    "fuel: the model's walkers carry a fuel argument; the driver reports err:fuel should it ever run out (never observed; "
-    "the real code is run under a watchdog so that a non-terminating scan is reported as a violation)",
+    "fuel: the model's walkers carry a fuel argument; fuel_suffices proves it never runs out (the real code is still run under a "
+    "watchdog so that a non-terminating scan would be reported as a violation)",
 ]
 RULE = ("environment dumps written by bash itself: 1-8 variables with random values (quotes, blanks, newlines, braces, $, backticks, "
         "backslashes, #, ;, control and non-ASCII characters) each dumped in a random quoting style (${v@A}, name=${v@Q}, printf %q, "
@@ -38,7 +39,7 @@ RULE = ("environment dumps written by bash itself: 1-8 variables with random val
         "declare -f; random black/white-list patterns over the names; plus a mutated stream (single edits of a dump) for robustness; "
         "non-trivial = the dump has at least two definitions and at least one is selected for removal and at least one is kept")
 LEVEL_TEXT = ("Kernel-checked Lean 4 theorems about a function-by-function port of the scanner (fuel-indexed mutual recursion): every walker "
-              "only moves forward; the output is the concatenation of disjoint, ordered windows of the input that never contain the appended "
+              "only moves forward and the scan terminates (the fuel never runs out); the output is the concatenation of disjoint, ordered windows of the input that never contain the appended "
               "NUL; the dropped text is exactly the union of the statements (function definitions / assignments) whose name was selected — "
               "nothing outside a filtered statement is dropped and nothing is added. The port is tied to the code by running real "
               "filter_env.main_run and the model on dumps produced by bash; the property itself is evaluated with bash as oracle "
